@@ -832,7 +832,7 @@ package kcp
 //@            && sends(Listener.chAccepts, l.chAccepts) == old(sends(Listener.chAccepts, l.chAccepts))
 //@            && (closed(l.die) == old(closed(l.die))) && (closed(l.chSocketReadError) == old(closed(l.chSocketReadError)))
 //@   ensures @C11 [at-most-one-session-created] calls(newUDPSession) <= old(calls(newUDPSession)) + 1
-//@   ensures @C11 [one-accept-per-created-session] sends(Listener.chAccepts, l.chAccepts) - old(sends(Listener.chAccepts, l.chAccepts)) == calls(newUDPSession) - old(calls(newUDPSession))
+//@   ensures @C11 @C15 [one-accept-per-created-session] sends(Listener.chAccepts, l.chAccepts) - old(sends(Listener.chAccepts, l.chAccepts)) == calls(newUDPSession) - old(calls(newUDPSession))
 //
 // Packets queued for post-processing (C10): a pool buffer with room for the AEAD tag.
 //@ callback chan:UDPSession.chPostProcessing
@@ -1058,6 +1058,8 @@ package kcp
 // lower bound until its own next receive) - and the request arm re-arms the die case.
 //@ soleconsumer UDPSession.postProcess: UDPSession.chPostProcessing
 //@ func UDPSession.postProcess
+//@   callsite fecEncoder.encode requires @C19 [an-out-of-band-packet-takes-no-sequence-id-and-no-slot-of-a-shard-group] !oob
+//@   callsite fecEncoder.encodeOOB requires @C19 [only-out-of-band-packets-get-the-out-of-band-frame] oob
 //@   loop 1 invariant @C15 [the-goroutine-can-always-see-the-close] chDie == s.die || pending(s.chPostProcessing)
 //@   requires s.ppinv()
 //@   requires calls(fillRand) == calls(BlockCrypt.Encrypt) + calls(cipher.AEAD.Seal)
